@@ -324,7 +324,7 @@ def _parse_einsum_string(einsum_str: str) -> dict:
             f"Each Einsum string must have exactly one equals sign."
         )
 
-    tensor_pattern = r"([A-Za-z_]\w*)\[([^\]]*)\]"
+    tensor_pattern = r"([A-Za-z_]\w*)\[([^\[\]]*)\]"
     full_pattern = rf"^{tensor_pattern}=(.+)$"
 
     match = re.match(full_pattern, einsum_str)
@@ -347,6 +347,13 @@ def _parse_einsum_string(einsum_str: str) -> dict:
     input_matches = re.findall(tensor_pattern, rhs)
     if not input_matches:
         raise ValueError(f"No input tensors: {original}, {rhs}")
+    leftover = re.sub(tensor_pattern, "", rhs).replace("*", "")
+    if leftover:
+        raise ValueError(
+            f"Invalid einsum format: {original}. The right-hand side must be tensor "
+            f"accesses of the form Name[...] separated by '*'; could not parse "
+            f"{leftover!r}."
+        )
 
     for m in input_matches:
         update(m, False)
